@@ -130,6 +130,18 @@ def quota_writers(ctx):
                         "write of kind '%s' in %s%s" % (kind, where, " (through helper %s)" % w.via.split("::")[-1] if w.via else ""), "dec only in outbound handler, inc only in inbound handler, reset only in handle_connack"))
     # Q8 remote_receive_maximum provenance
     hc = ctx.flat(ctx.body(r"client::context::Context::<[^>]*>::handle_connack$"))       # a `reset(max)` helper is looked at in place
+    # the quota of a new connection is the whole Receive Maximum: what an earlier connection left in the session
+    # (stored packets, waiters) takes no slot away before it is re-sent
+    for i in sorted(hc.reach):
+        for st in hc.blocks[i]["stmts"]:
+            if st["k"] == "assign" and place_fields(st["lhs"]) and place_fields(st["lhs"])[-1] == (CONNECTION, "send_quota"):
+                at = hc.rv_atoms(st["rv"])
+                other_f = sorted({"%s.%s" % (a[1].split("::")[-1], a[2]) for a in at if a[0] == "field" and not str(a[1]).startswith("std::")
+                                  and not a[1].endswith("ConnackRx") and not a[1].endswith("Connection")})      # (atoms over-approximate within the two structs the handler is given)
+                mixing = sorted({a[1].split("::")[-1] for a in at if a[0] == "call" and re.search(r"::(min|max|clamp|saturating_\w+|wrapping_\w+|checked_\w+|len)$", a[1])})
+                out.append(Inst("QUOTA-WRITERS", "reset-is-R", not other_f and not mixing, "%s:%d" % (hc.fn["file"], st["line"]),
+                                "send_quota is reset in handle_connack from %s%s" % (fmt_atoms(at, ("field",)), "; combined with %s" % mixing if mixing else ""),
+                                "the quota of a new connection is the Receive Maximum of its CONNACK and nothing else"))
     found = False
     for i in sorted(hc.reach):
         for st in hc.blocks[i]["stmts"]:
@@ -467,6 +479,13 @@ def maxsize_pred(ctx):
             elif c.kind == "cmp":
                 def is_len(op):
                     at = b.atoms(op)
+                    # the length of the packet itself: nothing but `len()` of the slice parameter (through borrows /
+                    # lossless conversions) flows into the compared value -- no size recomputed from the packet's bytes,
+                    # no constant term
+                    if any(x[0] == "call" and not re.search(r"(::len|as_ref|deref|borrow|::from|::into|try_from|try_into|unwrap\w*|expect)$", x[1]) for x in at):
+                        return False
+                    if any(x[0] in ("const", "uneval") for x in at):
+                        return False
                     return any(x[0] == "call" and x[1].endswith("::len") for x in at) and any(x[0] == "param" and x[1] in slice_params for x in at)
                 nn = c.cmp_norm(is_len)
                 if nn and is_max(b.atoms(nn[1])):
@@ -603,6 +622,23 @@ def maxsize_source(ctx):
                                 if (cs or of) and not lit_none:
                                     pure = False
                                     why += cs + of
+                    # whether M is recorded hangs on nothing but the CONNACK's own Maximum Packet Size: a store that is
+                    # skipped because another property is present (`if let Some(sei) .. else if let Some(m) ..`) loses M
+                    if body.path.endswith("::handle_connack") and not any(o_.key.endswith("store-hangs-on-own-property-only") for o_ in out):
+                        foreign = set()
+                        for i2 in sorted(fb.reach):
+                            if not any(st2["k"] == "assign" and place_fields(st2["lhs"]) and place_fields(st2["lhs"])[-1] == (CONNECTION, "remote_max_packet_size") for st2 in fb.blocks[i2]["stmts"]):
+                                continue
+                            for (a_, s_) in fb.control_dep_closure(i2):
+                                t_ = fb.term(a_)
+                                if t_["k"] != "switch":
+                                    continue
+                                for x in fb.atoms(t_["op"]):
+                                    if x[0] == "field" and str(x[1]).endswith("ConnackRx") and x[2] != "maximum_packet_size":
+                                        foreign.add("ConnackRx.%s" % x[2])
+                        out.append(Inst("MAXSIZE-SOURCE", "store-hangs-on-own-property-only", not foreign, "%s:%d" % (body.fn["file"], st["line"]),
+                                        "whether the limit is stored depends on %s" % (sorted(foreign) if foreign else "the CONNACK's Maximum Packet Size only"),
+                                        "M is recorded whenever the CONNACK announces it, whatever else the CONNACK carries"))
                     if not any(o_.key.endswith("source-pure") for o_ in out):
                         out.append(Inst("MAXSIZE-SOURCE", "source-pure", pure, "%s:%d" % (body.fn["file"], st["line"]),
                                         "the stored limit is %s" % ("the announced value or none" if pure else "mixed with %s" % sorted(set(why))),
